@@ -1,5 +1,4 @@
 CONSTANTS
-  Mode = "trace"
   Ns = {0}
   BigQs = {}
   IncMax = 0
@@ -12,5 +11,5 @@ CONSTANTS
   Locked = FALSE
 INIT TInit
 NEXT Stutter
-INVARIANT Judge
+INVARIANTS WindowLemma Judge
 CHECK_DEADLOCK FALSE
